@@ -69,6 +69,10 @@ struct Params {
   int dirarg_mode[2] = {0, 0};  // TWODIRS: 0 real, 1 NULL, 2 ""
   std::vector<std::string> dir_override;  // TWODIRS: other directory names (econftool: /usr/etc, /etc)
   bool join_option = false;               // add JOIN_SAME_ENTRIES=1 to the option string (no effect on merge-tame contents)
+  // readConfig*: the caller's options object first goes through a read that fails (same arguments, but a suffix no
+  // file carries) while another process-wide drop-in directory list is in force; the list is then put back and the
+  // object used for the real read
+  bool warmup_failed_read = false;
 
   bool dropins_only() const { return name_mode != 0; }
   std::string sfx() const { return suffix_mode >= 2 ? std::string() : "." + sfx_word; }
@@ -609,6 +613,25 @@ inline ReadResult read_tree(const Tree &t, const Params &p, const std::string &r
     } else {
       econf_file *mine = kf;
       const char *proj = p.project_null ? nullptr : p.project.c_str();
+      if (p.warmup_failed_read) {
+        const char *stale[2] = {"vfstale.d", nullptr};
+        econf_set_conf_dirs(stale);
+        // same project, sub-directory and name as the real read (the first read stores the default directories
+        // derived from them in the object), but a suffix no file of the tree carries
+        econf_err we = econf_readConfig(&kf, proj, p.usr_subdir.c_str(), name_arg, "vfnosuchsfx", D.c_str(), C.c_str());
+        if (we == ECONF_SUCCESS || kf != mine) {
+          // not the failed read that was intended: start again with a fresh object
+          if (kf) econf_freeFile(kf);
+          kf = nullptr;
+          e = econf_newKeyFile_with_options(&kf, opt.c_str());
+          mine = kf;
+        }
+        std::vector<const char *> l;
+        if (set_global)
+          for (auto &x : p.glob_postfixes) l.push_back(x.c_str());
+        l.push_back(nullptr);
+        econf_set_conf_dirs(l.data());
+      }
       if (mode == RM_CONFIG)
         r.rc = econf_readConfig(&kf, proj, p.usr_subdir.c_str(), name_arg, sfx_arg, D.c_str(), C.c_str());
       else
